@@ -17,8 +17,17 @@
 //	rt <M> -> <printedHex> <C1> <U1> <F1>          | badmatcher
 //	rtl <ML> -> <printedHex> <CL> <UL> <FL>        | badmatcher
 //	parse <inputHex> -> <C1> <U1> <F1> <CL> <UL> <FL>
-//	match <ML> <LS> -> <overall> <bits>
-//	mset <ML>|<ML>|… <LS> -> <0|1>
+//	match <ML> <LS> -> <overall> <bits> <anch> <search>
+//	mset <ML>|<ML>|… <LS> -> <0|1> <anch>|<anch>|…
+//
+// Regexp oracle.  `anch` has one character per matcher of the list: 'x' for = / !=,
+// otherwise what Go's regexp package says about "the pattern matches the WHOLE
+// label value": regexp.Compile("^(?:" + value + ")$").MatchString(lset[name]),
+// '1' / '0', or 'E' when that expression does not compile.  It is computed by
+// the harness from the matcher's Value alone, independently of labels.NewMatcher
+// and of whatever expression the matcher under test compiled for itself.
+// `search` is the same for the bare pattern, regexp.Compile(value) (an
+// unanchored search: diagnostic, it names the failure class).
 package matcher
 
 import (
@@ -230,6 +239,52 @@ func bit(b bool) string {
 	return "0"
 }
 
+var oracleCache = map[string]*regexp.Regexp{}
+
+func oracleRe(expr string) *regexp.Regexp {
+	if re, ok := oracleCache[expr]; ok {
+		return re
+	}
+	re, err := regexp.Compile(expr)
+	if err != nil {
+		re = nil
+	}
+	if len(oracleCache) > 1<<16 {
+		oracleCache = map[string]*regexp.Regexp{}
+	}
+	oracleCache[expr] = re
+	return re
+}
+
+// oracle renders, per matcher, what the regexp package says about its pattern and
+// the label value it is asked about (see the header): anchored = whole value.
+func oracle(ms []mt, lset model.LabelSet, anchored bool) string {
+	if len(ms) == 0 {
+		return "-"
+	}
+	out := make([]byte, len(ms))
+	for i, m := range ms {
+		if m.op < 2 {
+			out[i] = 'x'
+			continue
+		}
+		expr := m.value
+		if anchored {
+			expr = "^(?:" + m.value + ")$"
+		}
+		re := oracleRe(expr)
+		switch {
+		case re == nil:
+			out[i] = 'E'
+		case re.MatchString(string(lset[model.LabelName(m.name)])):
+			out[i] = '1'
+		default:
+			out[i] = '0'
+		}
+	}
+	return string(out)
+}
+
 // exec runs one op line against the implementation and returns what it observed.
 func exec(line string) string {
 	f := strings.Fields(line)
@@ -270,7 +325,8 @@ func exec(line string) string {
 		return c1(in) + " " + u1(in) + " " + f1(in) + " " + cl(in) + " " + ul(in) + " " + fl(in)
 	case "match":
 		need(3)
-		lm, st := build(parseML(f[1]))
+		ms := parseML(f[1])
+		lm, st := build(ms)
 		if st != "" {
 			return st
 		}
@@ -286,19 +342,22 @@ func exec(line string) string {
 			}
 			return b.String()
 		})
-		return overall + " " + bits
+		return overall + " " + bits + " " + oracle(ms, lset, true) + " " + oracle(ms, lset, false)
 	case "mset":
 		need(3)
 		var set labels.MatcherSet
+		lset := parseLS(f[2])
+		var orc []string
 		for _, p := range strings.Split(f[1], "|") {
-			lm, st := build(parseML(p))
+			ms := parseML(p)
+			lm, st := build(ms)
 			if st != "" {
 				return st
 			}
 			set = append(set, &lm)
+			orc = append(orc, oracle(ms, lset, true))
 		}
-		lset := parseLS(f[2])
-		return call(func() string { return bit(set.Matches(lset)) })
+		return call(func() string { return bit(set.Matches(lset)) }) + " " + strings.Join(orc, "|")
 	}
 	panic("bad op " + f[0])
 }
@@ -650,11 +709,84 @@ func (g *gen) rxSample(x *rx) string {
 }
 
 // gm is a generated matcher: for re/nre it remembers how to produce members
-// of the regexp's language (ast, or the literal lit when ast is nil).
+// of the regexp's language (ast, or the literal lit when ast is nil); for the
+// anchor shapes, cands are strings near the language (members of the
+// sub-patterns and their concatenations: full matches and strings that only
+// contain a match).
 type gm struct {
 	mt
-	ast *rx
-	lit string
+	ast   *rx
+	lit   string
+	cands []string
+}
+
+// -- patterns that interact with the ^(?:…)$ wrapping which NewMatcher applies --
+//
+// α β γ δ stand for small anchor-free sub-patterns.  The first group looks like
+// the wrapping itself (a pattern that begins with "^(?:" and/or ends with ")$"
+// is NOT thereby anchored: `^(?:a)|(b)$` is an alternation of two half-anchored
+// branches); then explicit anchors at the ends and inside, .* prefixes and
+// suffixes, top-level alternations and nested groups; the last group is outside
+// the fragment the Lean driver can evaluate itself (flags, classes, counted
+// repetition, \A \z \b): there the regexp oracle alone is the spec side.
+var anchorShapes = []string{
+	`^(?:α)|(β)$`, `^(?:α)β|γ(?:δ)$`, `^(?:α)|(?:β)$`, `^(?:α)$`, `^(?:α)(?:β)$`, `^(?:α)|β`, `α|(?:β)$`, `^(?:α|β)$γ`, `^(?:α)`, `(?:α)$`, `^(?:^(?:α)$)$`, `^(?:α)$|β`, `^(?:α))|((?:β)$`,
+	`^α$`, `^α`, `α$`, `^α|β$`, `(^α)|(β$)`, `(?:^α$)|β`, `α^β`, `α$β`, `$α`, `α^`, `^^α$$`, `(^)α($)`, `^(α|^β)γ$`, `(α$|β)γ`, `α(^|β)`, `(?:$|α)β`,
+	`.*α`, `α.*`, `.*α.*`, `.*(α|β).*`, `.*`, `.+`, `(.*)α(.*)`, `.*α|β.*`, `.?α.?`,
+	`α|β`, `α|β|γ`, `(α|β)γ`, `α(β|γ)`, `((α)|(?:β(γ)))`, `(?:(?:α)|(?:(β)|γ))δ`, `(α|β)|(γ|δ)`, `α||β`, `|α`, `((α))`, `(α)*β`, `(α|β)+`, `(?:α|β)?γ`,
+	`(?i)α`, `(?i:α)β`, `(?s)α.β`, `(?m)^α$`, `(?m:^α$)|β`, `(?U)α+`, `[abc]α`, `[^a]α`, `α[a-c]*`, `\w+α`, `(?:α){2}`, `(?:α){1,2}β`, `\Aα\z`, `\bα\b`, `α\z`, `(?-s:.)α`, `(?s:.)α`,
+}
+
+// sub is a small sub-pattern without anchors and one member of its language.
+func (g *gen) sub(simple bool) (string, string) {
+	for {
+		budget := 1 + g.r.IntN(3)
+		ast := g.rxExpr(1, &budget, simple)
+		if len(ast.subs) > 1 && ast.kind == rxAlt && g.chance(50) {
+			ast = &rx{kind: rxNC, subs: []*rx{ast}}
+		}
+		v := ast.String()
+		if _, err := regexp.Compile(v); err == nil {
+			return v, g.rxSample(ast)
+		}
+	}
+}
+
+// anchorPattern instantiates one of anchorShapes.
+func (g *gen) anchorPattern(simple bool) (string, []string) {
+	for {
+		shape := hx.Pick(g.r, anchorShapes)
+		var b strings.Builder
+		var mem []string
+		for _, r := range shape {
+			if r == 'α' || r == 'β' || r == 'γ' || r == 'δ' {
+				p, m := g.sub(simple)
+				b.WriteString(p)
+				mem = append(mem, m)
+			} else {
+				b.WriteRune(r)
+			}
+		}
+		v := b.String()
+		if _, err := regexp.Compile("^(?:" + v + ")$"); err != nil {
+			continue // e.g. `^(?:α))|((?:β)$` compiles only unwrapped
+		}
+		// every in-order concatenation of a non-empty subset of the members
+		var cands []string
+		for mask := 1; mask < 1<<len(mem); mask++ {
+			var c strings.Builder
+			for i, m := range mem {
+				if mask&(1<<i) != 0 {
+					c.WriteString(m)
+				}
+			}
+			cands = append(cands, c.String())
+		}
+		if len(cands) == 0 {
+			cands = []string{"", "a", g.poolString(3)}
+		}
+		return v, cands
+	}
 }
 
 func (g *gen) regexValue(simple bool) (string, *rx, string) {
@@ -672,6 +804,9 @@ func (g *gen) member(m gm) string {
 	if m.op < 2 {
 		return m.value
 	}
+	if len(m.cands) > 0 {
+		return hx.Pick(g.r, m.cands) // near the language, not necessarily in it
+	}
 	s := m.lit
 	if m.ast != nil {
 		s = g.rxSample(m.ast)
@@ -686,6 +821,8 @@ func (g *gen) matcher() gm {
 	m := gm{mt: mt{op: g.r.IntN(4), name: g.name()}}
 	if m.op < 2 {
 		m.value = g.value()
+	} else if g.chance(15) {
+		m.value, m.cands = g.anchorPattern(false) // ^ $ | ( ) in values through the printer and the parsers
 	} else {
 		m.value, m.ast, m.lit = g.regexValue(false)
 	}
@@ -713,6 +850,10 @@ func toks(ms []gm) []mt {
 func (g *gen) matchMatcher() gm {
 	m := gm{mt: mt{op: g.r.IntN(4), name: hx.Pick(g.r, smallNames)}}
 	if m.op >= 2 {
+		if g.chance(40) {
+			m.value, m.cands = g.anchorPattern(g.chance(70))
+			return m
+		}
 		m.value, m.ast, m.lit = g.regexValue(g.chance(60))
 		return m
 	}
@@ -729,7 +870,34 @@ func (g *gen) matchMatcher() gm {
 }
 
 func (g *gen) labelValue(m gm) (string, bool) {
-	switch g.r.IntN(6) {
+	switch g.r.IntN(9) {
+	case 5, 6:
+		// a value that CONTAINS a member without being one: extended by letters of the
+		// patterns' alphabet, a newline, or another member, before and/or after
+		s := g.member(m)
+		ext := hx.Pick(g.r, []string{"a", "b", "c", "\n", "x", "ab", s, g.member(m)})
+		switch g.r.IntN(3) {
+		case 0:
+			s = ext + s
+		case 1:
+			s += ext
+		default:
+			s = ext + s + hx.Pick(g.r, []string{ext, "\n", "c"})
+		}
+		return s, true
+	case 7:
+		// other case / one rune short
+		s := g.member(m)
+		if g.chance(50) {
+			return strings.ToUpper(s), true
+		}
+		if rs := []rune(s); len(rs) > 0 {
+			if g.chance(50) {
+				return string(rs[1:]), true
+			}
+			return string(rs[:len(rs)-1]), true
+		}
+		return "a", true
 	case 0:
 		return "", false // label missing
 	case 1:
